@@ -51,6 +51,19 @@ stop_watch Message::_codec_timings(Message::sw__max);
 unsigned MessageBase::_tabsize = defaults::tabsize;
 
 //-------------------------------------------------------------------------------------------------
+namespace
+{
+	/// Convert decoded tag text to a field number; 0 (never a valid field number) if it is not one,
+	/// so that e.g. 65594 is an unknown tag and not field 58.
+	inline unsigned short tag_to_fnum(const char *tag)
+	{
+		const size_t len(::strlen(tag));
+		const unsigned val(len && len < 6 ? fast_atoi<unsigned>(tag) : 0);
+		return val > 0xffff ? 0 : static_cast<unsigned short>(val);
+	}
+}
+
+//-------------------------------------------------------------------------------------------------
 unsigned MessageBase::extract_header(const f8String& from, char *len, char *mtype)
 {
 	const char *dptr(from.data());
@@ -97,8 +110,8 @@ unsigned MessageBase::decode(const f8String& from, unsigned s_offset, unsigned i
 
 	for (unsigned result; s_offset <= fsize && (result = extract_element(dptr + s_offset, fsize - s_offset, tag, val));)
 	{
-		unsigned short tv(fast_atoi<unsigned short>(tag));
-		Presence::const_iterator itr(_fp.get_presence().find(tv));
+		unsigned short tv(tag_to_fnum(tag));
+		Presence::const_iterator itr(tv ? _fp.get_presence().find(tv) : _fp.get_presence().end());
 		if (itr == _fp.get_presence().end())
 		{
 unknown_field:
@@ -144,8 +157,8 @@ unknown_field:
 				throw MissingMandatoryField("Unable to extract fixed width field");
 
 			const unsigned short lasttv(tv);
-			tv = fast_atoi<unsigned short>(tag);
-			if ((itr = _fp.get_presence().find(tv)) == _fp.get_presence().end())
+			tv = tag_to_fnum(tag);
+			if (!tv || (itr = _fp.get_presence().find(tv)) == _fp.get_presence().end())
 				goto unknown_field;
 			if (itr->_ftype != FieldTrait::ft_data || lasttv + 1 != tv) // next field must be data, tag must be 1 greater than length tag
 				break;
@@ -182,7 +195,7 @@ unsigned MessageBase::decode_group(GroupBase *grpbase, const unsigned short fnum
 
 		for (unsigned pos(0); s_offset < fsize && (result = extract_element(dptr + s_offset, fsize - s_offset, tag, val));)
 		{
-			const unsigned tv(fast_atoi<unsigned>(tag));
+			const unsigned tv(tag_to_fnum(tag));
 			Presence::const_iterator itr(grp->_fp.get_presence().end());
 			if (grp->_fp.get(tv, itr, FieldTrait::present))	// already present; next group?
 				break;
